@@ -4,7 +4,8 @@ from __future__ import annotations
 import ast
 
 from ..cfg import CFG
-from ..core import (AnalysisError, DefRef, NotConst, Ref, call_name, calls_in, dotted, enclosing_conditions, func_params, get_kw, norm,
+from .. import logic
+from ..core import (AnalysisError, DefRef, NotConst, Ref, call_name, calls_in, dotted, enclosing_conditions, expand_aliases, expr_conditions, func_params, get_kw, norm, single_assign_aliases,
                     qualname_of, walk_no_nested)
 from ..shapes import Shapes, fmt
 
@@ -73,8 +74,9 @@ def run(ctx):
         raise AnalysisError("R19.1: self.writer.write(...) not found in AvroWriter.write")
     guards = [st for st in walk_no_nested(wr) if isinstance(st, ast.If) and st.body and isinstance(st.body[-1], ast.Raise)]
     good = None
+    wal = single_assign_aliases(wr)
     for g in guards:
-        t = g.test
+        t = expand_aliases(g.test, wal)
         if isinstance(t, ast.Compare) and len(t.ops) == 1 and isinstance(t.ops[0], ast.NotEq) and {norm(t.left), norm(t.comparators[0])} == {"self.desc", f"{r}._desc"}:
             good = g
     ok = good is not None and wcfg.dominates(wcfg.node_of(good).id, wcfg.node_of(sink[0]).id)
@@ -113,36 +115,80 @@ def run(ctx):
         ctx.check(ok, "R19.2", construct + ":python-form", f"{ft} packs to {py}, Avro {at} holds {PRIMITIVE_PY.get(at)}", None, f"{py} fits {at}", key=f"R19.2:{ft}:{at}:form-mismatch")
         if ft in ("uint32",) and at == "int":
             ctx.info("R19.2", "uint32 -> Avro int (32-bit signed): values above 2**31-1 are refused by fastavro's validation at run time (refusal is allowed)", None)
-    # field schema is the union [type, null]
-    unions = [n for n in ast.walk(dts) if isinstance(n, ast.Assign) and isinstance(n.targets[0], ast.Subscript) and isinstance(n.targets[0].slice, ast.Constant)
-              and n.targets[0].slice.value == "type" and isinstance(n.value, ast.List)]
-    ok = len(unions) >= 2 and all(any((isinstance(e, ast.Constant) and e.value == "null") or (isinstance(e, ast.Dict) and any(isinstance(v, ast.Constant) and v.value == "null" for v in e.values))
-                                      for e in u.value.elts) for u in unions)
+    # field schema is the union [type, null]: every value bound to the "type" key of a field schema (a dict that also has "name")
+    fdicts = [n for n in ast.walk(dts) if isinstance(n, ast.Dict) and any(isinstance(k, ast.Constant) and k.value == "name" for k in n.keys)
+              and not any(isinstance(k, ast.Constant) and k.value in ("fields", "namespace") for k in n.keys)]
+    fnames = set()
+    for d in fdicts:
+        par = getattr(d, "_parent", None)
+        if isinstance(par, ast.Assign):
+            fnames |= {t.id for t in par.targets if isinstance(t, ast.Name)}
+    tvals = [v for d in fdicts for k, v in zip(d.keys, d.values) if isinstance(k, ast.Constant) and k.value == "type"]
+    tvals += [n.value for n in ast.walk(dts) if isinstance(n, ast.Assign) and isinstance(n.targets[0], ast.Subscript) and isinstance(n.targets[0].slice, ast.Constant)
+              and n.targets[0].slice.value == "type" and norm(n.targets[0].value) in fnames]
+    ctx.floor("R19.2", "field-schema type bindings in descriptor_to_schema", len(tvals), 2)
+
+    def _nullable(u):
+        return isinstance(u, ast.List) and any((isinstance(e, ast.Constant) and e.value == "null") or (isinstance(e, ast.Dict) and any(isinstance(v, ast.Constant) and v.value == "null" for v in e.values))
+                                               for e in u.elts)
+
+    ok = bool(tvals) and all(_nullable(u) for u in tvals)
     ctx.check(ok, "R19.2", "descriptor_to_schema:nullable", "field schemas are not unions with null (unset fields could not be written)", dts, "[type, null]")
-    loop = next((n for n in walk_no_nested(dts) if isinstance(n, ast.For)), None)
-    ctx.check(loop is not None and "get_all_fields().values()" in norm(loop.iter), "R19.2", "descriptor_to_schema:all-fields", "the schema does not cover all fields incl. reserved ones", dts,
-              "iterates desc.get_all_fields()")
+    dal = single_assign_aliases(dts)
+    dparam = func_params(dts)[0]
+    loops = [n for n in walk_no_nested(dts) if isinstance(n, ast.For) and norm(expand_aliases(n.iter, dal)) in (f"{dparam}.get_all_fields().values()", f"{dparam}.get_all_fields().items()")]
+
+    def _own_loop(n):
+        q = getattr(n, "_parent", None)
+        while q is not None and not isinstance(q, (ast.For, ast.While)):
+            q = getattr(q, "_parent", None)
+        return q
+
+    skipping = [n for lp in loops for n in ast.walk(lp) if isinstance(n, (ast.Continue, ast.Break)) and _own_loop(n) is lp]
+    ctx.check(len(loops) == 1 and not skipping, "R19.2", "descriptor_to_schema:all-fields", "the schema does not cover all fields incl. reserved ones", dts,
+              "iterates desc.get_all_fields() without skipping")
 
     # ------------------------------------------------------------------ R19.3
     ctx.rule("R19.3", "doc = json.dumps(desc._pack()); reader: doc.startswith('[\"') and endswith(']]]') -> name, fields = json.loads(doc) -> RecordDescriptor(name, fields); fallback skips '_' fields")
     doc = [v for n in ast.walk(dts) if isinstance(n, ast.Dict) for k, v in zip(n.keys, n.values) if isinstance(k, ast.Constant) and k.value == "doc"]
-    ctx.check(len(doc) == 1 and norm(doc[0]) == "json.dumps(desc._pack())", "R19.3", "descriptor_to_schema:doc", "the descriptor is not embedded as json.dumps(desc._pack())", dts,
+    ctx.check(len(doc) == 1 and norm(expand_aliases(doc[0], dal)) == f"json.dumps({dparam}._pack())", "R19.3", "descriptor_to_schema:doc", "the descriptor is not embedded as json.dumps(desc._pack())", dts,
               "doc = json.dumps(desc._pack())", key="R19.3:descriptor_to_schema:doc")
     dp = prog.func("flow.record.base.RecordDescriptor._pack")
     rets = [x for x in walk_no_nested(dp) if isinstance(x, ast.Return)]
     ctx.check(len(rets) == 1 and isinstance(rets[0].value, ast.Tuple) and [norm(e) for e in rets[0].value.elts] == ["self.name", "self._field_tuples"], "R19.3", "RecordDescriptor._pack:shape",
               "RecordDescriptor._pack() is not (name, field tuples)", dp, "(name, ((type, name), ...))")
     std = ctx.anchor_func("flow.record.adapter.avro.schema_to_descriptor")
-    det = next((st for st in walk_no_nested(std) if isinstance(st, ast.If) and "startswith" in norm(st.test)), None)
-    ok = det is not None and "doc.startswith('[\"')" in norm(det.test) and "doc.endswith(']]]')" in norm(det.test)
-    body_ok = det is not None and any(isinstance(a, ast.Assign) and isinstance(a.targets[0], ast.Tuple) and len(a.targets[0].elts) == 2 and norm(a.value) == "json.loads(doc)" for a in det.body)
-    ctx.check(ok and body_ok, "R19.3", "schema_to_descriptor:embedded", "the embedded descriptor is not detected / destructured as (name, fields)", std, "name, fields = json.loads(doc)")
+    scfg = CFG(std)
+    sal = single_assign_aliases(std)
+    det = next((st for st in walk_no_nested(std) if isinstance(st, ast.If) and "startswith" in norm(st.test) and "endswith" in norm(st.test)), None)
+    loads = [a for a in walk_no_nested(std) if isinstance(a, ast.Assign) and isinstance(a.targets[0], ast.Tuple) and len(a.targets[0].elts) == 2 and isinstance(a.value, ast.Call)
+             and call_name(a.value) == "json.loads" and len(a.value.args) == 1]
+    ok = False
+    nm = fl = None
+    if det is not None and len(loads) == 1:
+        dv = norm(loads[0].value.args[0])
+        prem = logic.facts_as_premises(scfg.facts_at(scfg.node_of(loads[0]).id))
+        ok = logic.implies(prem, logic.parse(f"{dv}.startswith('[\"')")) and logic.implies(prem, logic.parse(f"{dv}.endswith(']]]')"))
+        nm, fl = [norm(e) for e in loads[0].targets[0].elts]
+    ctx.check(ok, "R19.3", "schema_to_descriptor:embedded", "the embedded descriptor is not detected / destructured as (name, fields)", std, "name, fields = json.loads(doc)")
     rets = [x for x in walk_no_nested(std) if isinstance(x, ast.Return)]
-    ctx.check(len(rets) == 1 and "RecordDescriptor(name, fields)" in norm(rets[0].value), "R19.3", "schema_to_descriptor:validated", "the descriptor is not rebuilt through RecordDescriptor (validation)", std,
+    rok = bool(rets)
+    for rt_ in rets:
+        v = rt_.value
+        r_ = prog.resolve_expr(std._module, v.func) if isinstance(v, ast.Call) else None
+        rok &= isinstance(r_, DefRef) and r_.qualname == "flow.record.base.RecordDescriptor" and [norm(a) for a in v.args] == [nm, fl] and not v.keywords
+    ctx.check(rok, "R19.3", "schema_to_descriptor:validated", "the descriptor is not rebuilt through RecordDescriptor (validation)", std,
               "RecordDescriptor(name, fields)")
-    if det is not None:
-        skip = any(isinstance(st, ast.If) and "startswith('_')" in norm(st.test) and isinstance(st.body[-1], ast.Continue) for st in ast.walk(ast.Module(body=det.orelse, type_ignores=[])))
-        ctx.check(skip, "R19.3", "schema_to_descriptor:fallback-skips-reserved", "the schema fallback does not skip reserved (_-prefixed) fields", std, "reserved fields skipped")
+    # fallback: a field whose name starts with "_" is never added
+    apps = [c for c in calls_in(std) if isinstance(c.func, ast.Attribute) and c.func.attr == "append" and norm(c.func.value) == fl and c.args and isinstance(c.args[0], (ast.List, ast.Tuple))
+            and len(c.args[0].elts) == 2]
+    ctx.floor("R19.3", "fallback field append sites", len(apps), 1)
+    for ap in apps:
+        name_e = expand_aliases(ap.args[0].elts[1], sal)
+        node = scfg.node_of(ap)
+        prem = [(expand_aliases(e0, sal), p0) for e0, p0 in logic.facts_as_premises(scfg.facts_at(node.id))] + [(expand_aliases(e0, sal), p0) for e0, p0 in expr_conditions(ap)]
+        goal = ast.UnaryOp(op=ast.Not(), operand=ast.Call(func=ast.Attribute(value=name_e, attr="startswith", ctx=ast.Load()), args=[ast.Constant(value="_")], keywords=[]))
+        ctx.check(logic.implies(prem, goal), "R19.3", "schema_to_descriptor:fallback-skips-reserved", "the schema fallback does not skip reserved (_-prefixed) fields", ap, "reserved fields skipped")
 
     # ------------------------------------------------------------------ R19.4
     ctx.rule("R19.4", "the datum given to fastavro is r._packdict() unchanged (no float-seconds conversion of timestamps); reader: EPOCH + timedelta(microseconds=int)")
